@@ -15,7 +15,7 @@ ASSUMPTIONS = SSM_ASSUMPTIONS + [
     "whole-system complement: two real stacks over a fault-injecting wire on a virtual clock (bounded stage): payload lengths around every boundary, windows 1..8, every single fault at every frame index must still succeed, random multi-fault runs, > 256 segments in the thorough tier",
 ]
 NOT_DECIDED = [
-    "'any single fault is repaired and the transaction still succeeds': the contracts show that a lost / duplicated / late frame never corrupts the payload (out-of-order and duplicate segments are refused, stale acks move nothing, timeouts retransmit exactly the outstanding window); that the two sides' timers always let the retransmission win is a whole-system timing claim outside per-call contracts",
+    "'any single fault is repaired and the transaction still succeeds': the contracts show that a lost / duplicated / late frame never corrupts the payload (out-of-order and duplicate segments are refused, stale acks move nothing, timeouts retransmit exactly the outstanding window); that the two sides' timers let the retransmission win is a two-party timing claim: the contracts pin the receiver's wait to 4 x Tseg against the sender's 1 x Tseg, the end-to-end success under every single fault is checked by the simulation only (bounded)",
     "the concatenation lemma (the slices [i*size:(i+1)*size], i < count, appended in order, give back the payload) is the textbook fact composing the sender and receiver contracts; it is stated, not machine-checked",
 ]
 EXPLANATION = ("Sender: get_segment(i) is exactly octets [i*size, (i+1)*size) of the payload with sequence number i mod 256, more-follows iff i < count-1 and the "
